@@ -28,7 +28,7 @@ def shapeOfFlags : List Bool → Shape
 def qtyToTy (q : Engine.QTy) : Ty := Ty.ofShape (nameBytes q.base) (shapeOfFlags q.nulls)
 
 /-- `Type::is_valid_value` on a `QTy`. -/
-def validValueQ (q : Engine.QTy) (v : Value) : Ty.Outcome Bool := isValidValue (qtyToTy q) v
+def validValueQ (q : Engine.QTy) (v : Value) : Bool := isValidValue (qtyToTy q) v
 
 /-- `InterpretedQuery::from_query_and_arguments` on `QTy`-typed variables. -/
 def validateQ (vars : List (Engine.Name × Engine.QTy)) (args : List (Engine.Name × Value)) :
